@@ -347,9 +347,17 @@ func (t *Dense) TensorMul(other Tensor, axesA, axesB []int) (retVal *Dense, err 
 		retShape2 = append(retShape2, os[ni])
 	}
 
-	// we borrowClone because we don't want to touch the original Tensors
-	doT := t.Clone().(*Dense)
-	doOther := other.Clone().(*Dense)
+	// we borrowClone because we don't want to touch the original Tensors.
+	// A non-contiguous view is copied compactly: a plain Clone keeps the gaps of the
+	// storage window, which the transpose-and-reshape below cannot cope with.
+	compactClone := func(x Tensor) *Dense {
+		if v, ok := x.(View); ok && !x.DataOrder().IsContiguous() && v.IsMaterializable() {
+			return v.Materialize().(*Dense)
+		}
+		return x.Clone().(*Dense)
+	}
+	doT := compactClone(t)
+	doOther := compactClone(other)
 	defer ReturnTensor(doT)
 	defer ReturnTensor(doOther)
 
